@@ -32,6 +32,18 @@ func digraphBase(n, fam int) map[int][]int {
 		case 2: // two elements, overlapping between nodes
 			s = append(s, 20+x%2)
 			s = append(s, 30+x)
+		case 3: // three appended elements: len 3, cap 4 (one spare slot), distinct per node
+			s = append(s, 40+x)
+			s = append(s, 50+x)
+			s = append(s, 60+x)
+		case 4: // five appended elements: len 5, cap 8; one element shared by all nodes
+			for k := 0; k < 4; k++ {
+				s = append(s, 70+10*k+x)
+			}
+			s = append(s, 7)
+		case 5: // explicit spare capacity, singleton contents
+			s = make([]int, 1, 6)
+			s[0] = 200 + x
 		}
 		fp[x] = s
 	}
@@ -47,7 +59,7 @@ func c03Digraphs(w *Worker) {
 	idx := base
 	for n := 1; n <= maxN; n++ {
 		for bits := 0; bits < 1<<(n*n); bits++ {
-			for fam := 0; fam < 3; fam++ {
+			for fam := 0; fam < 6; fam++ {
 				if w.Mine(idx) {
 					d := digraphCase{N: n, Bits: bits, Base: fam}
 					w.Begin(idx, &GCase{Origin: "digraph", Extra: mustJSON(d)})
